@@ -29,6 +29,10 @@ pub enum Op {
     RwUpgradable(ObjId),
     /// upgrade of an upgradable read to a write lock: enabled when the last plain reader is gone
     RwUpgrade(ObjId),
+    /// `futex(FUTEX_WAIT)` issued by the code under test through std (thread::park, std::sync locks,
+    /// std::sync::mpsc ...): blocked while the futex word still holds the expected value.  The first
+    /// field is a per-execution index of the address (addresses themselves are not reproducible).
+    FutexWait(usize, u32),
     /// begin a condvar wait: atomically release the mutex and enqueue as waiter
     CondWait(ObjId, ObjId),
     /// second half of a wait: blocked until notified *and* the mutex is free
@@ -132,6 +136,8 @@ struct State {
     live_os_threads: usize,
     monitor: Option<Monitor>,
     trace_steps: bool,
+    /// addresses of the futex words the code under test waits on, in order of first appearance
+    futex_addrs: Vec<usize>,
 }
 
 pub struct Sched {
@@ -162,6 +168,7 @@ fn sched() -> &'static Sched {
             verdict: Verdict::Ok,
             writer_pref: false,
             spin_seen: Default::default(),
+            futex_addrs: vec![],
             last_tid: None,
             live_os_threads: 0,
             monitor: None,
@@ -235,6 +242,11 @@ impl State {
             },
             Op::CondNotifyOneAt(..) => true,
             Op::SelectReady(chs) => chs.iter().any(|c| self.chan_ready(*c)),
+            Op::FutexWait(k, val) => {
+                let addr = self.futex_addrs[*k];
+                // the word lives inside an object the waiting thread keeps alive
+                (unsafe { (*(addr as *const std::sync::atomic::AtomicU32)).load(std::sync::atomic::Ordering::SeqCst) }) != *val
+            }
             Op::Join(t) => self.threads[*t].status == Status::Finished,
             Op::Quiesce => false, // handled specially
         }
@@ -560,6 +572,77 @@ pub fn point(op: Op) {
     drop(wait_turn(st, tid, epoch));
 }
 
+// ---------------------------------------------------------------------------------------------------
+// futex model: what std's own blocking primitives (thread::park, std::sync::{Mutex, Condvar, RwLock,
+// Once, mpsc}) boil down to on Linux.  The binary that hosts the exploration interposes libc's
+// `syscall` symbol and hands FUTEX_WAIT / FUTEX_WAKE of registered threads to these two functions, so
+// that code under test which synchronises through std instead of the shimmed crates is scheduled
+// (and its deadlocks are seen) instead of blocking the OS thread that holds the scheduler's token.
+
+/// `FUTEX_WAIT(addr, val)` without timeout.  `None`: not ours (forward to the kernel).  `Some(())`:
+/// modelled -- the caller returns EAGAIN, std re-examines the word.
+pub fn futex_wait(addr: usize, val: u32) -> Option<()> {
+    if std::thread::panicking() {
+        return None;
+    }
+    let own = sched() as *const Sched as usize;
+    if addr >= own && addr < own + std::mem::size_of::<Sched>() {
+        return None; // the scheduler's own mutex / condvar
+    }
+    // thread-locals may already be gone when std blocks during thread exit
+    let reg = ME.try_with(|m| m.get()).ok().flatten();
+    let k = {
+        let mut st = lock();
+        if !st.active || st.aborting || reg.map(|(ep, _)| ep) != Some(st.epoch) {
+            return None;
+        }
+        match st.futex_addrs.iter().position(|a| *a == addr) {
+            Some(k) => k,
+            None => {
+                st.futex_addrs.push(addr);
+                st.futex_addrs.len() - 1
+            }
+        }
+    };
+    if std::env::var_os("DETSCHED_FUTEX_TRACE").is_some() {
+        eprintln!("futex-wait modelled: thread {:?} word #{k}\n{}", std::thread::current().name(), std::backtrace::Backtrace::force_capture());
+    }
+    // `point` unwinds with `Aborted` when the execution is torn down; that unwinding must not cross
+    // std's `extern "C"` call of `syscall`, so it is caught here and the thread is retired instead:
+    // it is accounted as gone and sleeps for good (only executions that are aborted while a thread
+    // is blocked in a std primitive leave such a thread behind)
+    match std::panic::catch_unwind(std::panic::AssertUnwindSafe(|| point(Op::FutexWait(k, val)))) {
+        Ok(()) => Some(()),
+        Err(e) => {
+            if !e.is::<Aborted>() {
+                std::panic::resume_unwind(e);
+            }
+            if let Some((ep, tid)) = ME.with(|m| m.replace(None)) {
+                thread_finished(ep, tid);
+            }
+            loop {
+                std::thread::sleep(Duration::from_secs(3600));
+            }
+        }
+    }
+}
+/// `FUTEX_WAKE(addr, n)`: the number of registered threads currently blocked on that word, capped
+/// at `n` (what the kernel would report).  `None`: not ours.
+pub fn futex_wake(addr: usize, n: usize) -> Option<usize> {
+    let own = sched() as *const Sched as usize;
+    if addr >= own && addr < own + std::mem::size_of::<Sched>() {
+        return None;
+    }
+    let reg = ME.try_with(|m| m.get()).ok().flatten();
+    let st = lock();
+    if !st.active || reg.map(|(ep, _)| ep) != Some(st.epoch) {
+        return None;
+    }
+    let k = st.futex_addrs.iter().position(|a| *a == addr)?;
+    let waiting = st.threads.iter().filter(|t| matches!(&t.status, Status::AtPoint(Op::FutexWait(kk, _)) if *kk == k)).count();
+    Some(waiting.min(n))
+}
+
 /// Data choice among `n` alternatives (the explorer branches on it; free of preemption cost).
 pub fn choose(n: usize) -> usize {
     if n <= 1 {
@@ -802,6 +885,7 @@ pub fn run_one(prefix: &[usize], cfg: &Config, f: impl FnOnce() + Send + 'static
         st.writer_pref = cfg.writer_pref;
         st.horizon = if cfg.horizon == 0 { 20000 } else { cfg.horizon };
         st.spin_seen.clear();
+        st.futex_addrs.clear();
         st.last_tid = None;
         st.live_os_threads = 1;
         st.monitor = None;
